@@ -67,6 +67,14 @@ theorem every_path_ends_in_resolver (es : Entries) (cx : Ctx) (g : Chain) (h : c
   obtain ⟨d, ct, rt, tgt, fo, lb, rfl⟩ := s.terminal hes k n hn hnext
   exact ⟨d, ct, rt, tgt, fo, lb, rfl, (s.closed_targets k d ct rt tgt fo lb hn).1⟩
 
+/-- Adjacent splitters are flattened completely: in a compiled chain no split leads to another splitter
+    (so a chain has the shape router? → splitter? → resolver). -/
+theorem compile_flat (es : Entries) (cx : Ctx) (g : Chain) (h : compile es cx = .ok g)
+    (k : String) (ss : List CSplit) (lb : Option String) (hk : alook k g.nodes = some (.splitter ss lb)) :
+    ∀ x ∈ ss, ∀ n, alook x.next g.nodes = some n → n.isSplitter = false := by
+  obtain ⟨st, nodes1, vis, s⟩ := compileWith_stages _ es cx g h
+  exact s.flattened (fun k hk => (sortKeys_perm_self _).symm.subset hk) k ss lb hk
+
 /-- Nothing unused: every node of the compiled chain is reachable from the start node. -/
 theorem no_unused_nodes (es : Entries) (cx : Ctx) (g : Chain) (h : compile es cx = .ok g) :
     ∀ k ∈ akeys g.nodes, Reach g.nodes g.start k := by
@@ -75,9 +83,16 @@ theorem no_unused_nodes (es : Entries) (cx : Ctx) (g : Chain) (h : compile es cx
 
 /-! ## cycles are errors -/
 
-/-- If the graph assembled from the entries contains a cycle reachable from the start node (a router /
-    splitter reference cycle), compilation returns an error — the cycle is never followed. -/
-theorem cycles_are_errors (es : Entries) (cx : Ctx) (st : St) (start k : String)
+/-- FULL STATEMENT (DESIGN §5 C15), not proved in this form: "a splitter / router reference cycle or a
+    redirect cycle *among the entries* reachable from the service makes `compile` return a circular-…
+    error". What is proved: (1) below, at the level of the graph `assembleChain` builds from the entries
+    — if that graph has a cycle reachable from the start node, compilation returns an error and the
+    cycle is never followed (missing: the characterisation of the assembled edges in terms of the
+    entries, and that the error is `circularRef` rather than an earlier one); (2)
+    `redirect_revisit_is_error` above for the redirect loop. The entry-level statement is checked on the
+    implementation by the harness monitors `cycles:splitter-cycle-compiled` /
+    `cycles:redirect-cycle-compiled`. -/
+theorem cycles_are_errors_partial (es : Entries) (cx : Ctx) (st : St) (start k : String)
     (ha : assemble es cx = .ok (st, start)) (hr : Reach st.nodes start k) (hc : Reach1 st.nodes k k) :
     ∃ e, compile es cx = .error e := by
   apply compileWith_error_of_dfs _ es cx st start ha
